@@ -161,13 +161,16 @@ def split_prints(out):
     line but a multi-line value may be interrupted.  We only ever print single-line values (tuples of ints/strings),
     so: every stdout line that starts with '<<' or '"' is one record."""
     recs = []
+    cache = {}              # (a simulation prints the same prefix many times)
     for line in out.splitlines():
         line = line.strip()
         if line.startswith("<<") or line.startswith('"'):
-            try:
-                recs.append(_parse_tla_value(line))
-            except Exception:
-                raise Machinery("unparsable TLC print: " + line[:200])
+            if line not in cache:
+                try:
+                    cache[line] = _parse_tla_value(line)
+                except Exception:
+                    raise Machinery("unparsable TLC print: " + line[:200])
+            recs.append(cache[line])
     return recs
 
 
